@@ -2,3 +2,5 @@ import CC.Thm.C09
 #print axioms CC.Thm.C09.threefish_conforms
 #print axioms CC.Thm.C09.unroll_eq_loop
 #print axioms CC.Thm.C09.P_tables
+#print axioms CC.Thm.C09.source_kernels_match
+#print axioms CC.Thm.C09.source_code_match
